@@ -17,7 +17,7 @@ RULE = ("random type graphs: 1..8 structs, 0..6 members each, shuffled key order
         "(hook) the encodeType string; a case is distinct by its document")
 TRUSTED = ["C08: Keccak-256 is an executable Gallina re-implementation, opaque to the theorems",
            "C08: serde derive of TypedDataBlob / Member (object or exact-length array form), HashMap/BTreeMap semantics, as stated in the model",
-           "C08: serde_json's reading of the bytes is modelled in Model/JsonText.v and compared on every run (clause json-text-vs-model); which double its floating-point reader returns is compared up to 2 ulp, not modelled (DESIGN 4.4)"]
+           "C08: serde_json's reading of the bytes is modelled in Model/JsonText.v and compared on every run (clause json-text-vs-model), and the typed-data model is also evaluated from the document's own bytes for float-free, duplicate-free documents (clause (from text)); which double its floating-point reader returns is compared up to 2 ulp, not modelled (DESIGN 4.4)"]
 
 MAIL = ('{"types":{"EIP712Domain":[{"name":"name","type":"string"},{"name":"version","type":"string"},{"name":"chainId","type":"uint256"},'
         '{"name":"verifyingContract","type":"address"}],"Person":[{"name":"name","type":"string"},{"name":"wallet","type":"address"}],'
@@ -118,6 +118,9 @@ def run(ctx):
         want = pyref.eip712_digest(alltypes, primary, dv, msg)
         if r.tag != "ok" or tuple(r.fields) != want:
             ctx.violation("digests-equal-eip712", case, [w.hex() for w in want], str(r)[:300])
+    from gen.util import model_over_texts
+    model_over_texts(ctx, [d for d, *_ in docs] + [MAIL], dumps, impl, "c08_compute_text %s", "C08text", "digests-vs-model(from text)",
+                     lambda i: dict(op="TypedData", cls=(docs[i][5] if i < len(docs) else "mail"), document=short(docs[i][0] if i < len(docs) else MAIL, 400)))
     r, m = impl[-1], mod[-1]
     ctx.count("eip712-mail-example")
     if r.tag != "ok" or r.fields[0].hex() != "be609aee343fb3c4b28e1df9e632fca64fcfaede20f02e86244efddf30957bd2":
